@@ -17,5 +17,10 @@ for d in sorted(glob.glob('/verif/seeded/*')):
     m = json.load(open(d + '/meta.json'))
     rows.append('| %s | %s | %s | %s |' % (m['id'], m['breaks_property'], m['needs_to_manifest'].replace('|', '\\|'), ', '.join(m['caught_by'])))
 s = re.sub(r'<!-- SEEDED-BEGIN -->.*?<!-- SEEDED-END -->', lambda m: '<!-- SEEDED-BEGIN -->\n' + '\n'.join(rows) + '\n<!-- SEEDED-END -->', s, flags=re.S)
+brow = ['| behaviour-preserving change | what it changes internally | result of running all checks against it |', '|---|---|---|']
+for d in sorted(glob.glob('/verif/benign/*')):
+    m = json.load(open(d + '/meta.json'))
+    brow.append('| %s | %s | %s |' % (m['id'], m['what'].replace('|', '\\|'), m['result'].replace('|', '\\|')))
+s = re.sub(r'<!-- BENIGN-BEGIN -->.*?<!-- BENIGN-END -->', lambda m: '<!-- BENIGN-BEGIN -->\n' + '\n'.join(brow) + '\n<!-- BENIGN-END -->', s, flags=re.S)
 open(p, 'w').write(s)
 print('DESIGN.md tables regenerated:', len(k['findings']), 'findings,', len(k['fixed']), 'fixed,', len(rows) - 2, 'seeded')
